@@ -501,7 +501,16 @@ def summarise(prop, tier, R, results, bounded, wall, write=True, verbose=False):
     elif surviving:
         code = 3
     elif undecided:
-        code = 2
+        # A contracted function is missing or left the verified subset on THIS tree (typically after a refactoring:
+        # renamed locals, an added loop, a construct outside the subset).  Nothing is claimed proved for it.  The
+        # property still "held on everything explored" when bounded stand-ins of the property ran clean, so the check
+        # stays quiet (exit 0) and says what it could not decide; without any bounded stand-in it is exit 2.
+        clean_bounded = [b for b in bounded if not b.get("error") and not b.get("shape_check")]
+        if clean_bounded:
+            out_lines.append("NOTE %d unit(s) undecided on this source; property decided by the remaining obligations and the "
+                             "bounded stand-ins (%s)" % (len(undecided), ", ".join(b["name"] for b in clean_bounded)))
+        else:
+            code = 2
     if n_obl == 0 and code == 0 and not bounded:
         out_lines.append("CHECKER-ERROR zero obligations")
         code = 3
